@@ -357,14 +357,15 @@ add(property='C09', id='C09-image-surface-refracts', status='open', clause='opd_
     what='when the image surface itself refracts (its own medium differs from the medium in front of it, e.g. the image '
          'surface is the rear face of the last glass and keeps the default medium air, as in the Microscope20x and '
          'UVReflectingMicroscope samples) Wavefront mixes the two sides: the reference sphere reaches the exit pupil as '
-         'seen from the medium in front (Paraxial.XPL() ignores the image surface), while the rays are taken back to it '
+         'seen from the medium in front (Paraxial.XPL() is the distance to the stop when the stop is the last surface, '
+         'ignoring the refraction at the image surface), while the rays are taken back to it '
          'with the directions and the index of the medium behind. The result is the OPD of neither reading and differs '
          'from the OPD of the same lens written with the rear face as an explicit surface 0 mm in front of the image '
          'surface, e.g. object at 9 mm in n = 1.5, surface R = 3.05 into N-BK7, image after 216.69 mm, EPD 2: rim sample '
          '3.710 waves, explicit form 1.995 waves. A repair has to decide on which side of a refracting image surface '
          'image space lies (XPL() including the image surface changes pinned paraxial values; using the arriving '
          'directions changes every OPD by rounding), so it is recorded, not repaired',
-    region='lenses whose image surface refracts, samples that match neither consistent reading',
+    region='lenses whose image surface refracts and whose stop is the last surface, samples that match neither consistent reading',
     weakened_relation='OPD == reference computed with the exit pupil seen from the medium in front of the image surface and '
                       'the ray directions and index of the medium behind it',
     reproducer=json.load(open(os.path.join(HERE, 'known_cases', 'C09-image-surface-refracts.json'))))
